@@ -25,6 +25,8 @@ Check(t) ==
     ELSE IF t.steps2 # cfg.N THEN "resumed-run-step-count"
     ELSE IF ~Same(t.run2, want, cfg) THEN "resumed-run-learnable-state"
     ELSE IF ~SameOpt(t.run2, want, cfg) THEN "resumed-run-optimizer-state"
+    \* optimizer "two": its non-tensor state (the step counter of every parameter it moved) survives the checkpoint
+    ELSE IF IsTwo(cfg) /\ "n" \in DOMAIN t.run2 /\ t.run2.n # <<cfg.N>> THEN "resumed-run-optimizer-state(non-tensor entry)"
     ELSE IF t.files.init = <<>> \/ Q(t.files.init[1]) # R(cfg.a0) \/ Q(t.files.init[2]) # R(cfg.b0) THEN "initial-weights-file"
     ELSE IF t.files.final = <<>> \/ Q(t.files.final[1]) # want.a \/ Q(t.files.final[2]) # want.b THEN "final-weights-file"
     ELSE IF Checked(cfg) # {} /\ t.files.min_loss = <<>> THEN "min-loss-file-missing"
